@@ -1,4 +1,5 @@
 import EraVerif.Proofs.LayerPInv
+import EraVerif.Proofs.LayerPExample
 
 /-!
 # C01 — Agreement: correct nodes never commit conflicting blocks (protocol level, Layer P)
@@ -74,8 +75,21 @@ theorem agreement_over_time {s s' : PState ι} (hn : 1 ≤ total w) (hb : wt w b
 
 /-! ## Non-vacuity: the hypotheses are satisfiable and certificates exist in reachable states -/
 
-/-- six validators of weight 1 (n = 6, f = 1, quorum 5), validator 5 Byzantine -/
-example : (1 : ℕ) ≤ total (fun _ : Fin 6 => 1) ∧ wt (fun _ : Fin 6 => 1) {5} ≤ faulty (fun _ : Fin 6 => 1) := by
+/-- Whenever the correct validators alone reach the quorum, a history in which a block is certified is reachable:
+the theorems above are about real histories, not vacuous ones. -/
+theorem certified_state_reachable (hn : 1 ≤ total w) (hb : wt w byz ≤ faulty w)
+    (hq : quorum w ≤ wt w (univ \ byz)) (h : ℕ) :
+    ∃ s, Reach w byz first s ∧ Cert w byz s.st 1 first h :=
+  exists_reachable_cert w byz first hn hb hq h
+
+/-- six validators of weight 1 (n = 6, f = 1, quorum 5), validator 5 Byzantine: the hypotheses hold … -/
+example : (1 : ℕ) ≤ total (fun _ : Fin 6 => 1) ∧ wt (fun _ : Fin 6 => 1) {5} ≤ faulty (fun _ : Fin 6 => 1) ∧
+    quorum (fun _ : Fin 6 => 1) ≤ wt (fun _ : Fin 6 => 1) (univ \ {5}) := by
   decide
+
+/-- … so in that committee a state with block `(0, 42)` certified in view 1 is reachable, and by `agreement` no other
+payload can ever be certified for block 0. -/
+example : ∃ s : PState (Fin 6), Reach (fun _ => 1) {5} 0 s ∧ Cert (fun _ => 1) {5} s.st 1 0 42 :=
+  certified_state_reachable (by decide) (by decide) (by decide) 42
 
 end EraVerif.Props.C01
